@@ -118,6 +118,8 @@ def register(reg, prop):
         return _setup
 
     filter_clause = ("forall(lambda k: well_prepared(self)[k] == (not (spe > 0 and bad[perm[k]])), 0, N)")
+    # NOTE post#12 below ("only well-prepared atoms survive") restates the consequence of the
+    # filter clause for the reduced chain; on a wrong filter both fail (two replays)
     reg.add_contract(Contract(
         f"{IMPL}:MPSBackendImpl.init_dark_qubits", property=prop, label="MPSBackendImpl.init_dark_qubits",
         params={"self": none}, setup=setup_dark(),
